@@ -66,7 +66,7 @@ def scenario(big: bool = False) -> Any:
 
     base = cm.message(kinds=("async", "async", "async", "sync"),
                       outs=("ret", "ret", "ret", "ValueError", "MyErr", "KeyboardInterrupt", "SystemExit", "CancelledError",
-                            "MyBase", "NoResult", "EmptyBatchError"),
+                            "MyBase", "NoResult", "EmptyBatchError", "BadStrError"),
                       timeouts=(None, None, 0.3, 0.35, 1, "0.3", "1", 3, "3.0", 1.5, "2.5"), acks=("sync",), durs=cm.DURS + [2.0])
     msg = st.tuples(base, st.fixed_dictionaries({
         "rvkind": st.sampled_from(["json", "json", "obj", "default"]),
